@@ -9,6 +9,8 @@ program_chains and the evidence's coverage.bounds):
   standard format.  Oracle: `ParsedException.from_string(t)` recovers every generating field and
   `to_string() == t`.  Besides ordinary source lines the menu holds source lines that begin like a line of the
   traceback grammar (LOOKALIKE_SOURCES: prefixes of a `File "..."` line, the header, an exception line).
+  Unit kind `msg:` crosses the shorter texts with a wider message menu (EXTRA_MESSAGES: white-space-only lines, trailing
+  white space, grammar lookalikes as continuation lines, ...) and hands every text over as str and as UTF-8 bytes.
 * part `markers` - the same texts with position-marker lines (`~~~^^^`) below source lines: the fields must
   still be recovered (text identity is not demanded: to_string documents that it omits anchors).
 * part `programs` - call-chain programs generated as source files in a scratch directory under /dev/shm,
@@ -18,7 +20,10 @@ program_chains and the evidence's coverage.bounds):
   PEP 302 loader's get_source (VIRTUAL_LINKS).  tbutils is asked after the linecache entries the oracle
   left behind were dropped, so it has to find the source lines itself.  Besides ExceptionInfo.from_exc_info /
   TracebackInfo.from_traceback(tb) the argument-less entry points (ExceptionInfo.from_current,
-  TracebackInfo.from_traceback()) are called inside the program's own except block.
+  TracebackInfo.from_traceback()) are called inside the program's own except block, and other (type, value,
+  traceback) triples are rendered: the tail tb.tb_next (what an inner handler recorded before the exception
+  propagated further; oracle: the traceback module given the same triple) and a value stripped of its __traceback__.
+  Link 'genfile' (GENERATED_LINKS): code compiled from a string under the path of a real file, run in a bare namespace.
 * part `programs-tails` - the same programs whose raising function is itself recursive *on the raising line*
   (TAILS), so that the traceback ends inside a run of identical entries (with and without a
   "[Previous line repeated ...]" summary as its last stack line); directed deep runs (DEEP_TAILS).
@@ -26,6 +31,9 @@ program_chains and the evidence's coverage.bounds):
   source, linecache entry) are edited: each referenced line (and all at once) is replaced by a member of
   LINE_CLASSES (empty, white space only, trailing white space, ...) or cut off (STRUCTURAL_EDITS); the traceback
   module (oracle) and tbutils both render the exception against the edited sources.
+* part `programs-histories` - histories of source availability in one process (SOURCE_STATES: as loaded / gone /
+  shifted, every sequence without immediate repetition): in each state the loaded code raises a new exception which
+  tbutils renders before the traceback module does (and then again both from a cooled linecache).
 """
 import importlib.util
 import itertools
@@ -81,6 +89,14 @@ SOURCES = ('', 'x = 1', 'raise E("a: b")', '    indented()')     # as found in t
 EXC_TYPES = ('ValueError', 'pkg.mod.Custom', 'KeyboardInterrupt')
 MESSAGES = ('', 'msg', 'a: b', 'line1\nline2', 'x\n\ny', ' lead', 'm\n  File "x", line 1, in y')
 MARKERS = ('    ^^^^^', '      ~~~~^^^')
+# More message shapes, crossed with the shorter texts only (message_units): lines made of white space only, trailing /
+# leading white space, an empty first line, continuation lines that read like lines of the traceback grammar,
+# non-ASCII white space, a long line.  (Not in the menu: messages ending in a newline - the text is then
+# indistinguishable from the terminated text of the shorter message - and messages containing a line boundary of
+# str.splitlines other than "\n", see run().)
+EXTRA_MESSAGES = ('a\n \nb', 'a\n\t\nb', 'a\n    \n    b', 'a  \nb ', ' ', '\nb', 'a\n ', 'a\n    b\nc',
+                  'a\nTraceback (most recent call last):\nb', 'a\nValueError: b', 'a\n    ^^^^',
+                  'a\n  [Previous line repeated 3 more times]', '\u00e9: \u20ac\n\u3000\n\u00a0b', 'x' * 5000 + '\ny')
 
 # Source lines that begin like a line of the traceback grammar without being one: every proper prefix of a stack
 # entry's first line cut at a token boundary, the header line, an exception line - and a source line that, stripped,
@@ -111,9 +127,17 @@ MEDIUM_MENU = tuple((p, LINES[(i + j + k) % 2], f, s) for i, p in enumerate(PATH
 LOOK_MENU = tuple((PATHS[i % len(PATHS)], LINES[i % len(LINES)], FUNCS[i % len(FUNCS)], s)
                   for i, s in enumerate(LOOKALIKE_SOURCES))
 LOOK_ALL = tuple(itertools.product(PATHS, LINES, FUNCS, LOOKALIKE_SOURCES))
-MENUS = {'full': FRAME_MENU, 'medium': MEDIUM_MENU, 'small': SMALL_MENU,
+MENUS = {'full': FRAME_MENU, 'medium': MEDIUM_MENU, 'small': SMALL_MENU, 'lookm': LOOK_MENU,
          'look1': LOOK_ALL, 'look2': LOOK_MENU + FRAME_MENU, 'look3': LOOK_MENU + SMALL_MENU}
 EXC_MENU = tuple(itertools.product(EXC_TYPES, MESSAGES))                     # 21
+# Messages containing a line boundary of str.splitlines other than "\n" (the interpreter writes them as they are): on
+# the tree as of this writing from_string cuts the message there and to_string() joins with "\n" - defect candidate,
+# fixes/C16-10-line-boundaries.patch.  Set to True once that fix is in the tree.
+SPLITLINES_BOUNDARY_MESSAGES = True
+BOUNDARY_MESSAGES = ('a\rb', 'a\x0bb', 'a\x0cb', 'a\x1cb', 'a\x1eb', 'a\x85b', 'a\u2028b', 'a\u2029\nb')
+if SPLITLINES_BOUNDARY_MESSAGES:
+    EXTRA_MESSAGES += BOUNDARY_MESSAGES
+XEXC_MENU = tuple(itertools.product(EXC_TYPES, EXTRA_MESSAGES))
 
 
 def _exc_class(name):
@@ -144,7 +168,7 @@ def pieces():
     if not _PIECES:
         _PIECES['f'] = {fr: frame_text(fr) for fr in FRAME_MENU + LOOK_ALL}
         assert set(MEDIUM_MENU) <= set(FRAME_MENU) and set(SMALL_MENU) <= set(FRAME_MENU)
-        _PIECES['e'] = {ex: exc_text(ex) for ex in EXC_MENU}
+        _PIECES['e'] = {ex: exc_text(ex) for ex in EXC_MENU + XEXC_MENU}
         # harness self-check: the pieces concatenate to what the interpreter prints for a whole traceback
         fr = [FRAME_MENU[5], FRAME_MENU[0], FRAME_MENU[127]]
         ss = traceback.StackSummary.from_list([traceback.FrameSummary(p, l, f, line=s) for p, l, f, s in fr])
@@ -189,7 +213,8 @@ class _nobudget:
 
 def check_text(case, guard=budget):
     """case = {'frames': [[path, lineno, func, src], ...], 'exc': [type, msg], 'marks': None | [None|int, ...],
-               'repeats': absent | [None|N, ...]  (N: a "[Previous line repeated N more times]" line follows the entry)}
+               'repeats': absent | [None|N, ...]  (N: a "[Previous line repeated N more times]" line follows the entry),
+               'bytes': absent | True  (the text is handed over UTF-8 encoded, which from_string documents to accept)}
     Returns list of (sig, expected, observed).  `guard` is the hang guard (the shard loops install one guard
     per batch of cases instead, which is cheaper, and pass _nobudget)."""
     from boltons.tbutils import ParsedException
@@ -198,7 +223,8 @@ def check_text(case, guard=budget):
     marked = bool(marks) and any(m is not None for m in marks)
     repeats = case.get('repeats')
     text = build_text(frames, ex, marks, repeats)
-    fn = 'fn:ParsedException.from_string' + ('(markers)' if marked else '') + ('(repeat-summary)' if repeats else '')
+    fn = ('fn:ParsedException.from_string' + ('(bytes)' if case.get('bytes') else '') + ('(markers)' if marked else '') +
+          ('(repeat-summary)' if repeats else ''))
     if repeats:
         # the statement leaves open whether the summarised repetitions are listed: accept the printed entries as
         # they are, or followed by N more copies
@@ -208,7 +234,7 @@ def check_text(case, guard=budget):
     out = []
     try:
         with guard():
-            pe = ParsedException.from_string(text)
+            pe = ParsedException.from_string(text.encode('utf-8') if case.get('bytes') else text)
             got_frames = list(pe.frames)
             got_type, got_msg = pe.exc_type, pe.exc_msg
     except _Budget:
@@ -258,7 +284,8 @@ def check_text(case, guard=budget):
         except Exception as e:
             back = '<raised %s: %s>' % (type(e).__name__, e)
         if back != text:
-            out.append(('C16|fn:ParsedException.to_string%s|text' % ('(repeat-summary)' if repeats else ''), text, back))
+            out.append(('C16|fn:ParsedException.to_string%s%s|text' % ('(after-bytes)' if case.get('bytes') else '',
+                                                                       '(repeat-summary)' if repeats else ''), text, back))
     return out
 
 
@@ -275,7 +302,20 @@ def text_units(tier):
     else:
         units += [('medium', 3, (i,)) for i in range(len(MEDIUM_MENU))]
         units += [('small', 4, (i,)) for i in range(len(SMALL_MENU))]
-    return units + look_units(tier) + (repeat_units(tier) if REPEAT_SUMMARY_TEXTS else [])
+    return units + look_units(tier) + (repeat_units(tier) if REPEAT_SUMMARY_TEXTS else []) + message_units(tier)
+
+
+def message_units(tier):
+    """'msg:<menu>' units: every message of MESSAGES + EXTRA_MESSAGES, as str and as UTF-8 bytes, below the shorter
+    texts."""
+    units = [('msg:full', 0, ()), ('msg:full', 1, ())]
+    if tier == 'quick':
+        units.append(('msg:lookm', 1, ()))
+    else:
+        units.append(('msg:look1', 1, ()))
+    if tier == 'quick':
+        return units + [('msg:small', 2, ())]
+    return units + [('msg:full', 2, (i,)) for i in range(0, len(FRAME_MENU), 8)] + [('msg:small', 3, ())]
 
 
 def repeat_units(tier):
@@ -345,6 +385,10 @@ def unit_frames(unit):
 def text_shard(unit):
     t = inputs.Tally()
     pieces()
+    variants = [(ex, False) for ex in EXC_MENU]
+    if unit[0].startswith('msg:'):
+        unit = (unit[0][4:],) + tuple(unit[1:])
+        variants = [(ex, False) for ex in XEXC_MENU] + [(ex, True) for ex in EXC_MENU + XEXC_MENU]
     for frames in (repeat_texts(unit) if unit[0] == 'rep' else unit_frames(unit)):
         repeats = None
         if unit[0] == 'rep':
@@ -352,11 +396,13 @@ def text_shard(unit):
         nt = text_nontrivial(frames)
         case = None
         try:
-            with budget():                      # one hang guard per batch of 21 texts
-                for ex in EXC_MENU:
+            with budget():                      # one hang guard per batch of 21 (message units: 147) texts
+                for ex, as_bytes in variants:
                     case = {'part': 'texts', 'frames': frames, 'exc': list(ex), 'marks': None}
                     if repeats:
                         case['repeats'] = repeats
+                    if as_bytes:
+                        case['bytes'] = True
                     t.count(nontrivial=nt, sample=case if (nt and ex[1]) else None)
                     for sig, exp, obs in check_text(case, _nobudget):
                         t.bad(sig, case, exp, obs)
@@ -413,6 +459,11 @@ LINKS = ('plain', 'method', 'lambda', 'gen', 'listcomp', 'genexpr', 'closure', '
 # importers); 'specloader' = __spec__ and __loader__ both (what zipimport-like importers produce); 'speconly' =
 # __spec__ with a loader but no __loader__ entry (linecache falls back to __spec__.loader).
 VIRTUAL_LINKS = ('loader', 'specloader', 'speconly')
+# 'genfile': generated code that is compiled from a string under the path of a real file written next to the module and
+# run in a bare namespace (__name__ only, no loader): its source is found through the file system alone, and nothing
+# but the file stands behind it when the file is missing.
+GENERATED_LINKS = ('genfile',)
+OFFMODULE_LINKS = VIRTUAL_LINKS + GENERATED_LINKS
 DEEP_LINKS = ('plain', 'lambda', 'exec', 'rec3')
 EXC_KINDS = ('msg', 'empty', 'keyerror', 'multiline', 'custom', 'nested', 'assert', 'badstr')
 RAISE = {
@@ -425,10 +476,44 @@ RAISE = {
     'assert': "assert not _sink, 'a: b'",
     'badstr': "raise BadStr()",
 }
+# More kinds of exception object, raised through the shortest chains only (part programs-exckinds): OSError with errno and
+# filename, several args, BaseException subclasses, a class that claims module __main__, a class defined in a function
+# ('<locals>' in its qualified name), non-ASCII text, __str__ returning '' / a non-string.
+EXTRA_EXC_KINDS = ('oserror', 'tupleargs', 'keyboardinterrupt', 'systemexit', 'main_class', 'local_class', 'nonascii',
+                   'str_empty', 'str_nonstr')
+# Exception classes whose __module__ is None, or a module called "exceptions" / "__builtin__" (the Python 2 names of
+# builtins): on the tree as of this writing ExceptionInfo prints "None.X: m" (interpreter: "<unknown>.X: m") and
+# "X: m" (interpreter: "exceptions.X: m") - defect candidate, fixes/C16-9-type-module-prefix.patch.  Set to True once
+# that fix is in the tree.
+ODD_MODULE_EXC_KINDS = True
+ODD_MODULE_KINDS = ('module_none', 'module_exceptions', 'module_py2_builtin')
+RAISE.update({
+    'oserror': "raise OSError(2, 'No such file', 'x y')",
+    'tupleargs': "raise ValueError('a', 2)",
+    'keyboardinterrupt': "raise KeyboardInterrupt()",
+    'systemexit': "raise SystemExit(3)",
+    'main_class': "raise MainCls('m: n')",
+    'local_class': "raise Local('l')",
+    'nonascii': "raise ValueError('\\u00e9: \\u20ac')",
+    'str_empty': "raise StrEmpty('x')",
+    'str_nonstr': "raise StrInt('x')",
+    'module_none': "raise NoModule('m')",
+    'module_exceptions': "raise LegacyModule('m')",
+    'module_py2_builtin': "raise LegacyBuiltin('m')",
+})
 MSG_SHAPE = {'msg': 'one_line', 'empty': 'empty_message', 'keyerror': 'one_line', 'multiline': 'multi_line',
              'custom': 'one_line', 'nested': 'one_line', 'assert': 'one_line', 'badstr': 'str_raises'}
 TYPE_SHAPE = {'msg': 'builtin', 'empty': 'builtin', 'keyerror': 'builtin', 'multiline': 'builtin',
               'custom': 'module_class', 'nested': 'nested_class', 'assert': 'builtin', 'badstr': 'module_class'}
+MSG_SHAPE.update({'oserror': 'one_line', 'tupleargs': 'one_line', 'keyboardinterrupt': 'empty_message',
+                  'systemexit': 'one_line', 'main_class': 'one_line', 'local_class': 'one_line', 'nonascii': 'one_line',
+                  'str_empty': 'empty_message', 'str_nonstr': 'str_raises', 'module_none': 'one_line',
+                  'module_exceptions': 'one_line', 'module_py2_builtin': 'one_line'})
+TYPE_SHAPE.update({'oserror': 'builtin', 'tupleargs': 'builtin', 'keyboardinterrupt': 'builtin', 'systemexit': 'builtin',
+                   'main_class': 'main_class', 'local_class': 'local_class', 'nonascii': 'builtin',
+                   'str_empty': 'module_class', 'str_nonstr': 'module_class', 'module_none': 'module_none',
+                   'module_exceptions': 'module_named_like_py2_builtins',
+                   'module_py2_builtin': 'module_named_like_py2_builtins'})
 # Shape of the raising function.  'plain': "def fN(): raise ...".  'self<k>': fN calls itself k times *on the line that
 # finally raises*, so the traceback ends with k+1 identical (file, line, function) entries: 3 (the most the interpreter
 # prints in full), 4 ("1 more time"), 6 ("3 more times").
@@ -463,6 +548,45 @@ class BadStr(Exception):
 class Outer:
     class Inner(Exception):
         pass
+
+
+class MainCls(Exception):
+    pass
+
+
+class StrEmpty(Exception):
+    def __str__(self):
+        return ''
+
+
+class StrInt(Exception):
+    def __str__(self):
+        return 5
+
+
+class NoModule(Exception):
+    pass
+
+
+class LegacyModule(Exception):
+    pass
+
+
+class LegacyBuiltin(Exception):
+    pass
+
+
+def _make_local():
+    class Local(Exception):
+        pass
+    return Local
+
+
+Local = _make_local()
+MainCls.__module__ = '__main__'
+NoModule.__module__ = None
+LegacyModule.__module__ = 'exceptions'
+LegacyBuiltin.__module__ = '__builtin__'
 
 
 '''
@@ -525,6 +649,15 @@ def program_source(chain, exc, tail='plain', head='plain'):
                        '"_up": _sys%(i)d.modules[__name__]}\n'
                        'exec(compile(_vsrc%(i)d, _vpath%(i)d, "exec"), _vns%(i)d)\n'
                        '%(me)s = _vns%(i)d["_v%(i)d"]\n' % {'i': i, 'nxt': nxt, 'me': me, 'spec': spec.replace("'", '"'), 'ldr': ldr})
+        elif kind == 'genfile':
+            src.append('import sys as _gsys%(i)d\n'
+                       '_gsrc%(i)d = "# generated source\\n\\ndef _g%(i)d():\\n    return _up.%(nxt)s()\\n"\n'
+                       '_gpath%(i)d = __file__[:-3] + ".gen%(i)d.py"\n'
+                       'with open(_gpath%(i)d, "w", encoding="utf-8") as _gf%(i)d:\n'
+                       '    _gf%(i)d.write(_gsrc%(i)d)\n'
+                       '_gns%(i)d = {"__name__": __name__ + ".gen%(i)d", "_up": _gsys%(i)d.modules[__name__]}\n'
+                       'exec(compile(_gsrc%(i)d, _gpath%(i)d, "exec"), _gns%(i)d)\n'
+                       '%(me)s = _gns%(i)d["_g%(i)d"]\n' % {'i': i, 'nxt': nxt, 'me': me})
         elif kind.startswith('rec'):
             k = int(kind[3:])
             src.append('def %s(n=%d):\n    return %s(n - 1) if n else %s()\n' % (me, k, me, nxt))
@@ -570,9 +703,10 @@ def strip_markers(tb_lines):
     return out
 
 
-def interpreter_view(e):
-    """Everything the oracle says about exception e, using only the standard traceback module."""
-    tb = e.__traceback__
+def interpreter_view(e, tb=None):
+    """Everything the oracle says about exception e (rendered with traceback object tb; default: its own), using only
+    the standard traceback module."""
+    tb = e.__traceback__ if tb is None else tb
     frames = [[fs.filename, fs.lineno, fs.name, (fs.line or '').strip()] for fs in traceback.extract_tb(tb)]
     whole = ''.join(traceback.format_exception(type(e), e, tb))
     tb_lines = traceback.format_tb(tb)
@@ -608,10 +742,12 @@ def unload_program(name, path):
     sys.modules.pop(name, None)
     for k in [k for k in linecache.cache if k.startswith(path[:-3])]:       # the file and its virtual companions
         linecache.cache.pop(k, None)
-    try:
-        os.unlink(path)
-    except OSError:
-        pass
+    d, stem = os.path.split(path[:-3])
+    for fn in [path] + [os.path.join(d, f) for f in os.listdir(d) if f.startswith(stem + '.gen')]:
+        try:
+            os.unlink(fn)
+        except OSError:
+            pass
 
 
 def cool_linecache():
@@ -642,7 +778,13 @@ def first_difference(want, got, window=4):
 # members reached through an argument-less entry point -> the member with explicit arguments that it delegates to
 # (a disagreement already reported for the latter, same observable, same case, is not reported again)
 _DELEGATES = {'from_current': 'from_exc_info', 'from_current().get_formatted': 'get_formatted',
-              'from_traceback()': 'from_traceback', 'from_traceback().get_formatted': 'get_formatted'}
+              'from_traceback()': 'from_traceback', 'from_traceback().get_formatted': 'get_formatted',
+              'from_traceback(tb_next)': 'from_traceback', 'from_traceback(tb_next).get_formatted': 'get_formatted',
+              'from_exc_info(type,value,tb_next)': 'from_exc_info',
+              'from_exc_info(type,value,tb_next).get_formatted': 'get_formatted',
+              'from_exc_info(value.__traceback__=None)': 'from_exc_info',
+              'from_exc_info(value.__traceback__=None).get_formatted': 'get_formatted',
+              'get_formatted(second-call)': 'get_formatted'}
 
 
 def grab_current():
@@ -785,11 +927,74 @@ def compare_program(e, want, exc, contextual=True, handled=None):
         if ok2:
             compare_full('ExceptionInfo', 'from_current().get_formatted', txt)
 
+    def compare_other_tracebacks():
+        """The (type, value, traceback) triple need not be the one of sys.exc_info() in the outermost handler: a triple
+        recorded by an inner handler before the exception propagated further has as its traceback a tail (tb_next...)
+        of value.__traceback__; a stored exception may have been stripped of its own (with_traceback(None)).  The
+        traceback module renders the traceback object it is given (want['sub']: its view of the tail)."""
+        tb = e.__traceback__
+        sub, w = tb.tb_next, want.get('sub')
+        if sub is not None and w is not None:
+            ok, tbi = guarded('TracebackInfo', 'from_traceback(tb_next)', lambda: tbutils.TracebackInfo.from_traceback(sub))
+            if ok:
+                ok2, fr = guarded('TracebackInfo', 'from_traceback(tb_next)', lambda: tb_frames(tbi))
+                if ok2 and fr != w['frames']:
+                    report('TracebackInfo', 'from_traceback(tb_next)', 'frames', w['frames'], fr)
+                ok2, txt = guarded('TracebackInfo', 'from_traceback(tb_next).get_formatted', tbi.get_formatted)
+                if ok2 and txt != w['tb']:
+                    report('TracebackInfo', 'from_traceback(tb_next).get_formatted', 'tb_lines',
+                           *first_difference(w['tb'], txt), tags=rep_tags)
+            member = 'from_exc_info(type,value,tb_next)'
+            ok, ei = guarded('ExceptionInfo', member, lambda: tbutils.ExceptionInfo.from_exc_info(type(e), e, sub))
+            if ok:
+                ok2, fr = guarded('ExceptionInfo', member, lambda: tb_frames(ei.tb_info))
+                if ok2 and fr != w['frames']:
+                    report('ExceptionInfo', member, 'frames', w['frames'], fr)
+                ok2, txt = guarded('ExceptionInfo', member + '.get_formatted', ei.get_formatted)
+                if ok2 and txt != w['full']:
+                    if txt.startswith(w['tb']) and not txt[len(w['tb']):].startswith(' '):
+                        compare_exc_line('ExceptionInfo', member + '.get_formatted', txt[len(w['tb']):])
+                    else:
+                        report('ExceptionInfo', member + '.get_formatted', 'tb_lines',
+                               *first_difference(w['full'], txt), tags=rep_tags)
+        member = 'from_exc_info(value.__traceback__=None)'
+        try:
+            e.__traceback__ = None
+            ok, ei = guarded('ExceptionInfo', member, lambda: tbutils.ExceptionInfo.from_exc_info(type(e), e, tb))
+            if ok:
+                ok2, fr = guarded('ExceptionInfo', member, lambda: tb_frames(ei.tb_info))
+                if ok2 and fr != want['frames']:
+                    report('ExceptionInfo', member, 'frames', want['frames'], fr)
+                ok2, txt = guarded('ExceptionInfo', member + '.get_formatted', ei.get_formatted)
+                if ok2:
+                    compare_full('ExceptionInfo', member + '.get_formatted', txt)
+        finally:
+            e.__traceback__ = tb
+        # a second rendering of one object, after the caller changed what to_dict() returned
+        member = 'get_formatted(second-call)'
+        ok, ei = guarded('ExceptionInfo', 'from_exc_info', lambda: tbutils.ExceptionInfo.from_exc_info(type(e), e, tb))
+        if ok:
+            def twice():
+                ei.get_formatted()
+                d = ei.to_dict()
+                for fr in d['exc_tb']['frames']:
+                    fr.clear()
+                del d['exc_tb']['frames'][:]
+                d.clear()
+                return ei.get_formatted(), tb_frames(ei.tb_info)
+            ok2, res = guarded('ExceptionInfo', member, twice)
+            if ok2:
+                compare_full('ExceptionInfo', member, res[0])
+                if res[1] != want['frames']:
+                    report('ExceptionInfo', member, 'frames', want['frames'], res[1])
+
     try:
         with budget():                  # one hang guard per program
             compare_classes(tbutils.TracebackInfo, tbutils.ExceptionInfo)
             if handled:
                 compare_current()
+            if 'sub' in want:
+                compare_other_tracebacks()
             if contextual:
                 compare_classes(tbutils.ContextualTracebackInfo, tbutils.ContextualExceptionInfo)
     except _Budget:
@@ -816,6 +1021,9 @@ def check_program(root, chain, exc, contextual=True, tail='plain', head='plain')
         e, current = mod.run(grab_current) if contextual else (mod.run(), None)
         plain_exception(e)
         want = interpreter_view(e)
+        if contextual:
+            # other (type, value, traceback) triples: exercised wherever the argument-less entry points are
+            want['sub'] = interpreter_view(e, e.__traceback__.tb_next) if e.__traceback__.tb_next is not None else None
         cool_linecache()
         out = compare_program(e, want, exc, contextual, current)
         info = {'frames': len(want['frames']), 'collapsed': want['collapsed'],
@@ -897,6 +1105,7 @@ STRUCTURAL_EDITS = ('cut_before', 'cut_after_no_newline', 'gone')
 EDIT_OPS = tuple(n for n, _, _ in LINE_CLASSES) + STRUCTURAL_EDITS
 EDIT_TAG = dict([(n, t) for n, _, t in LINE_CLASSES] + [(n, 'source_' + n) for n in STRUCTURAL_EDITS])
 _VIRTUAL_RE = re.compile(r'\.virtual(\d+)\.tmpl\.py$')
+_GENFILE_RE = re.compile(r'\.gen(\d+)\.py$')
 
 
 class Sources:
@@ -908,7 +1117,7 @@ class Sources:
         self.orig = {}
 
     def kind(self, filename):
-        if filename == self.path:
+        if filename == self.path or (_GENFILE_RE.search(filename) and filename.startswith(self.path[:-3])):
             return 'file'
         m = _VIRTUAL_RE.search(filename)
         if m and filename.startswith(self.path[:-3]) and hasattr(self.mod, '_vsrc' + m.group(1)):
@@ -1035,13 +1244,100 @@ def edited_shard(arg):
     return t
 
 
+# ---- histories of source availability ------------------------------------------------------------------------------------
+
+# State of every source the traceback refers to while one more exception is raised (the code stays loaded) and rendered:
+# 'orig' as loaded, 'gone' (file deleted or not yet written / loader without source / linecache entry dropped),
+# 'shifted' (two lines inserted at the top: every entry now points at other text).
+SOURCE_STATES = ('orig', 'gone', 'shifted')
+STATE_TAG = {'orig': 'source_as_loaded', 'gone': 'source_gone', 'shifted': 'source_shifted'}
+
+
+def source_histories(length):
+    """Every sequence of `length` states without immediate repetition (its prefixes are the shorter histories)."""
+    return [h for h in itertools.product(SOURCE_STATES, repeat=length) if all(a != b for a, b in zip(h, h[1:]))]
+
+
+def check_source_history(root, chain, exc, history):
+    """A history in one process: for each state in turn, put the sources into that state, let the loaded program raise
+    a NEW exception and have tbutils render it *before* the traceback module is asked (what either of them - or the
+    earlier steps - left in linecache stays); then once more the usual way (oracle and tbutils each from a linecache
+    without rebuildable entries).  Returns (index of the first disagreeing step | None, [(sig, exp, obs, tags)])."""
+    from boltons import tbutils
+    sys.dont_write_bytecode = True
+    name, path, mod = load_program(root, chain, exc)
+    try:
+        base = interpreter_view(plain_exception(mod.run()))
+        sources = Sources(path, mod)
+        files = sorted(set(fr[0] for fr in base['frames'] if sources.kind(fr[0])))
+        for fn in files:
+            sources.read(fn)
+        cool_linecache()
+        try:
+            for step, state in enumerate(history):
+                for fn in files:
+                    text = sources.read(fn)
+                    sources.write(fn, {'orig': text, 'gone': None, 'shifted': '# shifted\n\n' + text}[state])
+                    if sources.orig[fn][0] == 'file' and state != 'gone':
+                        st = os.stat(fn)
+                        os.utime(fn, (st.st_atime, st.st_mtime + 5 * (step + 1)))
+                e = plain_exception(mod.run())
+                out, tags = [], (STATE_TAG[state],)
+                try:
+                    with budget():
+                        got_frames = tb_frames(tbutils.TracebackInfo.from_traceback(e.__traceback__))
+                        got_full = tbutils.ExceptionInfo.from_exc_info(type(e), e, e.__traceback__).get_formatted()
+                except _Budget:
+                    out.append(('C16|fn:TracebackInfo.from_traceback|no_termination:source-history', 'a result',
+                                'no result within %.0f s' % CASE_BUDGET_S, tags))
+                except Exception as err:
+                    out.append(('C16|fn:TracebackInfo.from_traceback|raised:source-history', 'a result',
+                                '%s: %s' % (type(err).__name__, err), tags))
+                else:
+                    want = interpreter_view(e)
+                    if got_frames != want['frames']:
+                        out.append(('C16|fn:TracebackInfo.from_traceback|frames:source-history', want['frames'][-3:],
+                                    got_frames[-3:], tags))
+                    if got_full != want['full']:
+                        w, g = first_difference(want['full'], got_full)
+                        out.append(('C16|fn:ExceptionInfo.get_formatted|tb_lines:source-history', w, g, tags))
+                cool_linecache()
+                want = interpreter_view(e)
+                cool_linecache()
+                out += [(sig + ':source-history', exp, obs, tuple(t) + tags)
+                        for sig, exp, obs, t in compare_program(e, want, exc, False)]
+                if out:
+                    return step, out
+        finally:
+            sources.restore()
+    finally:
+        unload_program(name, path)
+        cool_linecache()
+    return None, []
+
+
+def history_shard(arg):
+    root, chains, length = arg
+    t = inputs.Tally()
+    for chain in chains:
+        for history in source_histories(length):
+            step, res = check_source_history(root, chain, 'msg', history)
+            case = {'part': 'programs-histories', 'chain': list(chain), 'exc': 'msg',
+                    'history': list(history if step is None else history[:step + 1])}
+            t.count(nontrivial=True, sample=case)
+            t.add('renderings_compared', len(history) if step is None else step + 1)
+            for sig, exp, obs, tags in res:
+                t.bad(sig, case, exp, obs, tags=tags)
+    return t
+
+
 def edited_programs(tier):
     """(chain, all_only): every referenced line separately (and all at once) for the short chains, all at once only
     for the chains one link longer."""
     full = 1 if tier == 'quick' else 2
     out = []
     for n in range(full + 2):
-        for c in itertools.product(LINKS + VIRTUAL_LINKS, repeat=n):
+        for c in itertools.product(LINKS + OFFMODULE_LINKS, repeat=n):
             out.append((c, n > full))
     return out
 
@@ -1051,8 +1347,8 @@ def program_chains(tier):
     maxlen = 3 if tier == 'quick' else 4
     vlen = maxlen - 1                       # chains containing a virtual link: one link shorter
     for n in range(maxlen + 1):
-        for c in itertools.product(LINKS + VIRTUAL_LINKS, repeat=n):
-            if n <= vlen or not (set(c) & set(VIRTUAL_LINKS)):
+        for c in itertools.product(LINKS + OFFMODULE_LINKS, repeat=n):
+            if n <= vlen or not (set(c) & set(OFFMODULE_LINKS)):
                 yield c
     deep = (4,) if tier == 'quick' else (5, 6)
     for n in deep:
@@ -1065,7 +1361,7 @@ def tail_programs(tier):
     maxlen = 2 if tier == 'quick' else 3
     out = []
     for n in range(maxlen + 1):
-        for c in itertools.product(LINKS + VIRTUAL_LINKS, repeat=n):
+        for c in itertools.product(LINKS + OFFMODULE_LINKS, repeat=n):
             out += [(c, tail, 'plain') for tail in TAILS]
             if n < maxlen:
                 out += [(c, tail, head) for head in HEADS for tail in ('plain', TAILS[1])]
@@ -1107,6 +1403,10 @@ def program_shard_fn(root, contextual_maxlen, part='programs', excs=EXC_KINDS):
     return shard
 
 
+def rel_all(chains, ctx):
+    return [c for c in chains if len(c) <= (1 if ctx.quick() else 2)]
+
+
 def contiguous(items, n):
     """Split into <= n contiguous blocks (keeps the simplest-first order across shards)."""
     items = list(items)
@@ -1129,6 +1429,10 @@ def run(ctx):
         ctx_maxlen = 2 if ctx.quick() else 3
         inputs.run_shards(ctx, program_shard_fn(root, ctx_maxlen), contiguous(chains, 64), part='programs',
                           rule='at least one link between run() and the raising function')
+        kinds = EXTRA_EXC_KINDS + (ODD_MODULE_KINDS if ODD_MODULE_EXC_KINDS else ())
+        inputs.run_shards(ctx, program_shard_fn(root, ctx_maxlen, 'programs-exckinds', kinds),
+                          contiguous([(c, 'plain', 'plain') for c in rel_all(chains, ctx)], 16), part='programs-exckinds',
+                          rule='further kinds of exception object (EXTRA_EXC_KINDS) through the shortest chains')
         inputs.run_shards(ctx, program_shard_fn(root, 1 if ctx.quick() else 2, 'programs-tails', TAIL_EXCS),
                           contiguous(tail_programs(ctx.tier), 32), part='programs-tails',
                           rule='the raising function calls itself on the raising line and/or the catching function on '
@@ -1139,6 +1443,11 @@ def run(ctx):
         rel = [c for c in chains if len(c) <= (1 if ctx.quick() else 2) and 'linecache' not in c and 'exec' not in c]
         inputs.run_shards(ctx, reloaded_shard, [(root, b) for b in contiguous(rel, 16)], part='programs-reloaded',
                           rule='module rendered once, edited on disk, executed and rendered again (tbutils first)')
+        hist_len = 3 if ctx.quick() else 4
+        inputs.run_shards(ctx, history_shard, [(root, b, hist_len) for b in contiguous(rel_all(chains, ctx), 32)],
+                          part='programs-histories',
+                          rule='the sources behind the traceback change state (as loaded / gone / shifted) between '
+                               'exceptions raised by the same loaded code; tbutils renders each before the oracle does')
         inputs.run_shards(ctx, edited_shard, [(root, b) for b in contiguous(edited_programs(ctx.tier), 32)],
                           part='programs-edited',
                           rule='the interpreter renders the exception differently after the edit than before')
@@ -1161,24 +1470,37 @@ def run(ctx):
                                       'entry of the full menu and every other lookalike; %s frames over the %d '
                                       'lookalike frames + the reduced menu'
                                       % ('3' if quick else '3-4', len(LOOK_MENU)),
-                  'exception_types': EXC_TYPES, 'messages': MESSAGES},
+                  'exception_types': EXC_TYPES, 'messages': MESSAGES,
+                  'extra_messages': [m if len(m) < 100 else m[:20] + '...(%d characters)' % len(m) for m in EXTRA_MESSAGES],
+                  'extra_messages_with': 'all messages (menu + extra), as str and as UTF-8 bytes: 0-1 frames over the full '
+                                         'menu, %s' % ('1 lookalike frame (one surrounding each), 2 frames over the reduced '
+                                                       'menu' if quick else '1 lookalike frame (every surrounding), 2 '
+                                                       'frames over the full menu, 3 over the reduced menu')},
         'markers': {'marker_lines': MARKERS, 'placement': 'every non-empty subset of the source-bearing frames',
                     'frames': ('1-3 over the reduced menu' if quick else '1-2 full menu, 3 reduced menu') +
                               '; lookalike source lines: 1 frame with every surrounding, %s frames over lookalike '
                               'frames + reduced menu' % ('2' if quick else '2-3')},
-        'programs': {'links': LINKS, 'virtual_links': VIRTUAL_LINKS,
+        'programs': {'links': LINKS, 'virtual_links': VIRTUAL_LINKS, 'generated_file_links': GENERATED_LINKS,
                      'chain_length': ('0-3 over all links, 4 over %s' % (DEEP_LINKS,) if quick
                                       else '0-4 over all links, 5-6 over %s' % (DEEP_LINKS,)) +
-                                     '; chains containing a virtual link: 0-%d' % (2 if quick else 3),
+                                     '; chains containing a virtual or generated-file link: 0-%d' % (2 if quick else 3),
                      'linecache': 'entries that linecache can rebuild itself are dropped between asking the traceback '
                                   'module and asking tbutils (TracebackInfo on a cold cache, later classes warm)',
-                     'exception_kinds': RAISE,
+                     'exception_kinds': {k: RAISE[k] for k in EXC_KINDS},
+                     'extra_exception_kinds': dict({k: RAISE[k] for k in EXTRA_EXC_KINDS},
+                                                   chain_length='0-%d' % (1 if quick else 2),
+                                                   odd___module___values=ODD_MODULE_EXC_KINDS),
                      'classes': 'TracebackInfo, ExceptionInfo for every program; ContextualTracebackInfo, '
                                 'ContextualExceptionInfo for chains of length <= %d' % (2 if quick else 3),
                      'entry_points': 'TracebackInfo.from_traceback(tb), ExceptionInfo.from_exc_info(type, value, tb); '
                                      'for chains of length <= %d also, inside the except block of the program: '
                                      'TracebackInfo.from_traceback(), ExceptionInfo.from_current()'
-                                     % (2 if quick else 3)},
+                                     % (2 if quick else 3),
+                     'other_triples': 'for the same chains: TracebackInfo.from_traceback(tb.tb_next), '
+                                      'ExceptionInfo.from_exc_info(type, value, tb.tb_next) against the traceback module '
+                                      'given the same triple; from_exc_info(type, value, tb) with '
+                                      'value.__traceback__ set to None; get_formatted() of one ExceptionInfo a second '
+                                      'time after the dict returned by its to_dict() was emptied by the caller'},
         'programs-tails': {'tails': TAILS, 'heads': HEADS, 'exception_kinds': TAIL_EXCS,
                            'chain_length': 'every tail below a plain run(): 0-%d over all links; every head above a plain '
                                            'raising function and above tail %s: 0-%d over all links'
@@ -1186,6 +1508,10 @@ def run(ctx):
         'programs-tails-deep (directed scenarios, NOT an exhaustive space)': {
             'programs': [list(map(str, x)) for x in deep_tail_programs(ctx.tier)],
             'beyond_1000_frames': CHAINS_BEYOND_1000_FRAMES},
+        'programs-histories': {'states': SOURCE_STATES,
+                               'histories': 'every sequence of %d states without immediate repetition, checked after '
+                                            'every step' % (3 if quick else 4),
+                               'chain_length': '0-%d over all links' % (1 if quick else 2), 'exception_kinds': ('msg',)},
         'programs-edited': {'line_classes': [n for n, _, _ in LINE_CLASSES], 'structural_edits': STRUCTURAL_EDITS,
                             'sources': 'module file on disk, loader-published virtual source, hand-registered linecache '
                                        'entry (code run by exec from a plain string has no source to edit)',
@@ -1206,6 +1532,13 @@ def run(ctx):
         'a recovered line number may be an int or its decimal string; an absent source line may be "" or None',
         'source text is compared after stripping surrounding white space (the traceback module strips it)',
         'messages whose last line looks like "Exception ... ignored" are outside the text menu',
+        'messages ending in a newline are outside the text menu (the unterminated text of message "a\\n" is the '
+        'terminated text of message "a"); messages containing a str.splitlines boundary other than "\\n" (\\r, \\x0b, '
+        '\\x0c, \\x1c-\\x1e, \\x85, \\u2028, \\u2029) are NOT explored: from_string splits them into lines and '
+        'to_string() joins with "\\n" (seen on the unchanged tree, reported as a defect candidate)'
+        if not SPLITLINES_BOUNDARY_MESSAGES else
+        'messages ending in a newline are outside the text menu (the unterminated text of message "a\\n" is the '
+        'terminated text of message "a")',
         'virtual code is published through __loader__, through __spec__.loader, or both',
         'part programs-tails-deep is a finite list of directed scenarios (long runs of one entry), not an enumeration; '
         'call chains deeper than 1000 frames are %s' % ('included' if CHAINS_BEYOND_1000_FRAMES else
@@ -1234,6 +1567,9 @@ def replay(ctx, data):
                 msgs += ['%s expected=%r observed=%r' % (sig, exp, obs) for sig, exp, obs, tags in res
                          if only in (None, sig)]
             return msgs
+        if case['part'] == 'programs-histories':
+            step, res = check_source_history(root, tuple(case['chain']), case['exc'], tuple(case['history']))
+            return ['%s expected=%r observed=%r' % (sig, exp, obs) for sig, exp, obs, tags in res if only in (None, sig)]
         if case['part'] == 'programs-reloaded':
             res = check_reloaded_program(root, tuple(case['chain']), case['exc'])
             return ['%s expected=%r observed=%r' % (sig, exp, obs) for sig, exp, obs, tags in res if only in (None, sig)]
